@@ -353,6 +353,9 @@ func c09GenCases(tier string, r *hx.Rng) {
 	// ---- include graphs
 	for i := 0; i < scale(40, 500); i++ {
 		fmt.Fprintf(w, "n inc %s\n", hx.H(c09IncludeGraph(r, i)))
+		if i < len(c09WildcardIncludes) {
+			fmt.Fprintf(w, "n inc_wildcard %s\n", hx.H(c09WildcardIncludes[i]))
+		}
 	}
 	// ---- parser-level texts: stage src / include strings with characters
 	// that need quoting, mutated programs
@@ -383,6 +386,28 @@ func c09GenCases(tier string, r *hx.Rng) {
 		fmt.Fprintf(w, "u mut %s\n", hx.H(c09Render(r, t, r.Intn(2), nil)))
 	}
 }
+
+// Multi-file programs whose calls use wildcard bindings ('* = self', an
+// explicit binding plus the wildcard, '* = CALL'): the compiler expands the
+// wildcard in the Ast it keeps, and the include-expanded source is printed
+// from that Ast.
+var c09WildcardIncludes = func() []string {
+	lib := "stage ADD(\n    in  int a,\n    in  int b,\n    out int sum,\n    src comp \"add\",\n)\n\nstage UNADD(\n    in  int sum,\n    out int a,\n    out int b,\n    src comp \"unadd\",\n)\n"
+	mk := func(ins, args, body string) string {
+		main := "@include \"lib/stages.mro\"\n\npipeline P(\n" + ins + "    out int r,\n)\n{\n" + body +
+			"\n    return (\n        r = ADD.sum,\n    )\n}\n\ncall P(\n" + args + ")\n"
+		b, _ := json.Marshal(c09Inc{Main: "main.mro", Files: map[string]string{"main.mro": main, "lib/stages.mro": lib}})
+		return string(b)
+	}
+	ab, abArgs := "    in  int a,\n    in  int b,\n", "    a = 1,\n    b = 2,\n"
+	sm, smArgs := "    in  int sum,\n", "    sum = 3,\n"
+	return []string{
+		mk(ab, abArgs, "    call ADD(\n        * = self,\n    )\n"),
+		mk("    in  int b,\n", "    b = 2,\n", "    call ADD(\n        a = 7,\n        * = self,\n    )\n"),
+		mk(sm, smArgs, "    call UNADD(\n        * = self,\n    )\n\n    call ADD(\n        * = UNADD,\n    )\n"),
+		mk("    in  int sum,\n    in  int b,\n", "    sum = 3,\n    b   = 2,\n", "    call UNADD(\n        sum = self.sum,\n    )\n\n    call ADD(\n        # the rest from UNADD\n        b = self.b,\n        * = UNADD,\n    )\n"),
+	}
+}()
 
 // c09IncludeGraph builds a multi-file program: types in one file, stages in
 // two others (one in a nested directory), both including the types (a
